@@ -142,7 +142,11 @@ class Prop(object):
         if 'keyrev' in ex:
             out += sig(prim, 0x20, {'key': pbody}, wire.subpacket(29, b'\x03retired')) + trust
         # (the third identity is not valid UTF-8: older producers wrote Latin-1)
-        names = ['First User <first@example.org>'.encode(), 'Second Üser (zwei) <second@example.org>'.encode('utf-8'), 'Jos\xe9 Latin <jose@example.es>'.encode('latin-1')][:shape['nuid']]
+        # the second identity rotates through texts whose octets a careless reader would change: precomposed, decomposed (not NFC), starting with a
+        # byte-order mark, compatibility characters
+        second = ['Second Üser (zwei) <second@example.org>', 'Jose\u0301 Decomposed <nfd@example.org>', '\ufeffBom First <bom@example.org>',
+                  '\u212bngstro\u0308m \u2126 <singleton@example.org>'][shape.get('uid2', 0)]
+        names = ['First User <first@example.org>'.encode(), second.encode('utf-8'), 'Jos\xe9 Latin <jose@example.es>'.encode('latin-1')][:shape['nuid']]
         ids = [('uid', n) for n in names]
         if shape.get('uat'):
             if shape.get('bigimage'):
@@ -193,7 +197,7 @@ class Prop(object):
                 extras = ('direct',)
             shape = dict(nuid=case['nuid'], nsub=case['nsub'], secret=case['secret'], uat=uat, nself=nself, third=third, revoke_uid=revoke_uid, extras=extras,
                          same_time=same_time, trust=trust, prim=('ed25519a' if idx % 3 else 'ecdsa_p256a') if idx % 5 else 'ecdsa_p256_x0', nonminimal=(idx % 4 == 1),
-                         bigimage=(None, 2, None, 5)[idx % 4] if uat else None, kdf=[None, (10, 9), None, (8, 9), (9, 7)][idx % 5] if idx % 5 else None)
+                         bigimage=(None, 2, None, 5)[idx % 4] if uat else None, uid2=(idx // 2) % 4, kdf=[None, (10, 9), None, (8, 9), (9, 7)][idx % 5] if idx % 5 else None)
             if idx % 5 == 0:
                 # key material whose point coordinates have leading zero octets (fixed-width fields that an integer round trip would shorten)
                 shape['subnames'] = ['ecdh_p256_x0', 'ecdsa_p521_x0']
